@@ -369,6 +369,9 @@ func (bls *bls12Base) Verify(signature hotstuff.QuorumSignature, message []byte)
 	}
 
 	n := s.Participants().Len()
+	if n == 0 {
+		return fmt.Errorf("bls12: failed to verify: no participants")
+	}
 
 	if n == 1 {
 		id := firstParticipant(s.Participants())
